@@ -120,7 +120,7 @@ open Gen.C16Jpeg in
 /-- `lossless.Encode` up to the first entropy-coded byte: guards, SOI, JFIF, SOF3, DHT, SOS header.
     `predictor` is the predictor actually used (after auto-selection when the argument is 0). -/
 def losslessHeader (w h : Int) (c : Nat) (p predictor : Int) (t : HuffTable) : Outcome (List Byte) :=
-  if w ≤ 0 ∨ h ≤ 0 then .err
+  if w ≤ 0 ∨ h ≤ 0 ∨ w > 65535 ∨ h > 65535 then .err
   else if c ≠ 1 ∧ c ≠ 3 then .err
   else if p < 2 ∨ p > 16 then .err
   else if predictor < 0 ∨ predictor > 7 then .err
@@ -162,7 +162,7 @@ structure BaseTables where
 open Gen.C16Jpeg in
 /-- `baseline.Encode` up to the first entropy-coded byte: SOI, DQT×(1|2), SOF0, DHT×(2|4), SOS header -/
 def baselineHeader (w h : Int) (c : Nat) (t : BaseTables) : Outcome (List Byte) :=
-  if w ≤ 0 ∨ h ≤ 0 then .err
+  if w ≤ 0 ∨ h ≤ 0 ∨ w > 65535 ∨ h > 65535 then .err
   else if c ≠ 1 ∧ c ≠ 3 then .err
   else
     let dqt := writeSegment MarkerDQT (dqtPayload 0 t.q0) ++
@@ -180,7 +180,7 @@ open Gen.C16Jpeg in
 /-- `encodeSequential12` up to the first entropy-coded byte: SOI, JFIF, DQT, SOF1, DHT DC, DHT AC, SOS header.
     (The `components != 1` guard is applied by the caller of this model: the op has no component argument.) -/
 def ext12Header (w h : Int) (q : List Int) (dc ac : HuffTable) : Outcome (List Byte) :=
-  if w ≤ 0 ∨ h ≤ 0 then .err
+  if w ≤ 0 ∨ h ≤ 0 ∨ w > 65535 ∨ h > 65535 then .err
   else
     (dhtSegment 0 0 dc).bind fun d =>
     (dhtSegment 1 0 ac).map fun a =>
@@ -198,7 +198,7 @@ open Gen.C16Jpeg in
 /-- `nearlossless.Encode` (and `lossless.Encode` with `near = 0`) up to the first entropy-coded byte.
     SOF55 is the literal `0xFFF7` in both writers. -/
 def jpeglsHeader (w h : Int) (c : Nat) (p near : Int) : Outcome (List Byte) :=
-  if w ≤ 0 ∨ h ≤ 0 then .err
+  if w ≤ 0 ∨ h ≤ 0 ∨ w > 65535 ∨ h > 65535 then .err
   else if c ≠ 1 ∧ c ≠ 3 then .err
   else if p < 2 ∨ p > 16 then .err
   else if near < 0 ∨ near > 255 then .err
